@@ -29,7 +29,7 @@ def u(le, n, v):
 ARANGES_HEADER = 4 + 2 + 4 + 1 + 1
 
 
-def enc_aranges(le, sets):
+def enc_aranges(le, sets, fmt=32):
     """-> (section bytes, expected entries [(begin, length, info, unit_length, version, address_size, segment_size)] in encoded
     order, [(set start offset, first tuple offset)])"""
     out = bytearray()
@@ -42,15 +42,20 @@ def enc_aranges(le, sets):
         start = len(out)
         if start % T:
             raise AssertionError('set at %d is not aligned to its tuple size %d (generator bug)' % (start, T))
-        pad = (-ARANGES_HEADER) % T
+        hdr_len = ARANGES_HEADER if fmt == 32 else 4 + 8 + 2 + 8 + 1 + 1     # 64-bit format: escape + 8-byte length, 8-byte unit offset
+        pad = (-hdr_len) % T
         body = bytearray(b'\0' * pad)
         for a, ln in s['ranges']:
             assert (a, ln) != (0, 0), 'a (0,0) tuple is the terminator'
             body += u(le, A, a) + u(le, A, ln)
         body += u(le, A, 0) + u(le, A, 0)
-        unit_length = ARANGES_HEADER - 4 + len(body)
-        out += u(le, 4, unit_length) + u(le, 2, 2) + u(le, 4, s['info']) + bytes([A, 0]) + body
-        layout.append((start, start + ARANGES_HEADER + pad))
+        if fmt == 32:
+            unit_length = ARANGES_HEADER - 4 + len(body)
+            out += u(le, 4, unit_length) + u(le, 2, 2) + u(le, 4, s['info']) + bytes([A, 0]) + body
+        else:
+            unit_length = hdr_len - 12 + len(body)
+            out += b'\xff\xff\xff\xff' + u(le, 8, unit_length) + u(le, 2, 2) + u(le, 8, s['info']) + bytes([A, 0]) + body
+        layout.append((start, start + hdr_len + pad))
         for a, ln in s['ranges']:
             entries.append((a, ln, s['info'], unit_length, 2, A, 0))
     return bytes(out), entries, layout
